@@ -175,7 +175,8 @@ def run(ctx):
         if castle is None:
             ctx.fail("castle-undecided", "a path never tests whether the destination holds an own piece (castling encoding)", where)
             continue
-        wev = [e for e in p.events if e.kind == "call" and e.depth == 0 and e.name in W]
+        # writer calls on this board's position state, made directly or through an inlined private helper
+        wev = [e for e in p.events if e.kind == "call" and e.name in W and e.args and e.args[0][0] == "ptr" and e.args[0][1] == ("P", "self")]
         place = sorted([tuple(strip_ver(L.lift(a)) for a in e.args[1:]) for e in wev if role.get(e.name) == "place"], key=repr)
         rights = sorted([tuple(strip_ver(L.lift(a)) for a in e.args[1:]) for e in wev if role.get(e.name) == "rights"], key=repr)
         eps = [strip_ver(L.lift(e.args[1])) for e in wev if role.get(e.name) == "ep"]
@@ -321,6 +322,11 @@ def run(ctx):
         if castle and kind == "Pawn":
             reset = True
         hm = ops.field(st, hm_f)
+        import os
+        if os.environ.get("CVA_DEBUG") and ((kind is None and "Pawn" not in d["moved_excl"]) or (reset and hm != ("int", 0, "u8"))):
+            print("DEBUG", case, kind, d.get("moved_excl"), d.get("victim"), castle)
+            for c in p.conds:
+                print("     ", sym.show(L.lift(c[0]))[:150], c[1])
         if kind is None and "Pawn" not in d["moved_excl"]:
             ctx.fail("halfmove:pawn-undecided", "a path does not decide whether the moved piece is a pawn", where)
         elif reset:
